@@ -65,7 +65,8 @@ class StoreDriver:
             mps = [{'pk': pk, 'name': n} for pk, n in con.execute('select pk, name from mp_stream')]
             periods = [{'pk': pk, 'parent': par if par is not None else -1, 'stream': st if st is not None else -1}
                        for pk, par, st in con.execute('select pk, parent_pk, stream_pk from period')]
-            adps = [{'pk': pk, 'period': p if p is not None else -1} for pk, p in con.execute('select pk, period_pk from adaptation_set')]
+            adps = [{'pk': pk, 'period': p if p is not None else -1, 'ctype': ct or ''} for pk, p, ct in con.execute(
+                'select a.pk, a.period_pk, c.name from adaptation_set a left join content_type c on c.pk = a.content_type_pk')]
         finally:
             con.close()
         return {'streams': streams, 'files': files, 'blobs': sorted(blobs), 'keys': keys, 'links': links, 'mps': mps,
@@ -145,19 +146,24 @@ class StoreDriver:
         """every listed stream / mps serves its manifest or fails cleanly; indexed files read back"""
         c = self.s.client
         serve = []
+        video_streams = {f['stream'] for f in st['files'] if f['name'] == 'fv' and f['indexed']}
         for srow in st['streams']:
             for url in (f"/dash/vod/{srow['dir']}/hand_made.mpd", f"/dash/live/{srow['dir']}/manifest_e.mpd", f"/stream/{srow['pk']}"):
                 r = c.get(url)
                 serve.append({'kind': 'stream', 'name': srow['dir'], 'url': url, 'status': r.status_code,
+                              'has_video': 1 if srow['pk'] in video_streams else 0,
                               'exc': self.da.exceptions[-1] if r.status_code >= 500 and self.da.exceptions else {}})
         for m in st['mps']:
             for url in (f"/mps/vod/{m['name']}/hand_made.mpd", f"/mps/live/{m['name']}/hand_made.mpd"):
                 r = c.get(url)
                 serve.append({'kind': 'mps', 'name': m['name'], 'url': url, 'status': r.status_code,
+                              'has_video': 1 if all(p['stream'] in video_streams and any(
+                                  a['period'] == p['pk'] and a['ctype'] == 'video' for a in st['adps'])
+                                  for p in st['periods'] if p['parent'] == m['pk']) else 0,
                               'exc': self.da.exceptions[-1] if r.status_code >= 500 and self.da.exceptions else {}})
         for url in ('/streams', '/api/multi-period-streams?ajax=1'):
             r = c.get(url, headers=self.s.headers())
-            serve.append({'kind': 'list', 'name': url, 'url': url, 'status': r.status_code,
+            serve.append({'kind': 'list', 'name': url, 'url': url, 'status': r.status_code, 'has_video': 1,
                           'exc': self.da.exceptions[-1] if r.status_code >= 500 and self.da.exceptions else {}})
         back = 1
         dirs = {s['pk']: s['dir'] for s in st['streams']}
